@@ -19,6 +19,8 @@ SITES = [
     ("format-literal", ["-printf 'a", "\\n'"]), ("format-literal-file", ["-fprintf out 'a", "'"]),
     ("strftime-selector", ["-printf '%A", "\\n'"]), ("xattr-directive", ["-printf '%{xattr:", "}\\n'"]),
     ("format-escape", ["-printf 'a\\", "b\\n'"]),
+    # two user strings in one expression (a second string of one character after the first): each must reach its own literal
+    ("matcher:pair:-name/-iname", ["-name '", "' -o -iname '", "'"]), ("matcher:pair:-ipath/-path", ["-ipath '", "' -o -path '", "'"]),
 ]
 
 
@@ -32,13 +34,23 @@ def run(ctx, rep, tier):
     LONG = {"matcher:-name": (5,), "pool": (5,), "format-literal": (5,), "xattr-match:value": (5,)} if tier == "quick" else \
            {"matcher:-name": (4, 5, 6), "pool": (4, 5, 6), "format-literal": (4, 5, 6), "format-literal-file": (5,), "xattr-match:value": (5, 6),
             "matcher-framed:-name": (5,), "xattr": (5,)}
-    for site, (pre, post) in SITES:
-        for k in list(range(1, kmax + 1)) + list(LONG.get(site, ())):
+    for site, parts in SITES:
+        pre, post = parts[0], parts[-1]
+        pair = len(parts) == 3
+        for k in ((3, 1) if pair else list(range(1, kmax + 1)) + list(LONG.get(site, ()))):
             if site == "strftime-selector" and k > 1:
                 continue
             us = [sym_char() for _ in range(k)]
             spec = [pre] + us + [post]
+            if pair:
+                # first string k characters, second string 4 - k characters, both arbitrary
+                us2 = [sym_char() for _ in range(4 - k)]
+                spec = [pre] + us + [parts[1]] + us2 + [post]
+                us = us + us2
             extra = [u != 39 for u in us]
+            if site == "xattr-directive":
+                # a '}' ends the directive: what follows is literal format text, which is the format-literal site
+                extra += [u != 125 for u in us]
             if k > kmax and site.startswith("format"):
                 # long literal text: directive / escape introducers are covered by the short strings
                 extra += [z3.And(u != 37, u != 92) for u in us]
@@ -106,7 +118,8 @@ def run(ctx, rep, tier):
                 text = model_string(m3, spec)
                 user = "".join(chr(model_char(m3, u)) for u in us)
                 d = B.ctx.run_native([text], "debug")[0]
-                if user in d.get("scheme", ""):
+                strings = [user[:k], user[k:]] if pair else [user]
+                if all(('"%s"' % x) in d.get("scheme", "") or (not pair and x in d.get("scheme", "")) for x in strings):
                     rep.inconclusive.append("witness %r for lost user text at site %s does not reproduce natively" % (text, site))
                 else:
                     rep.violation("user-text-lost:" + site.split(":")[0], "the user string %r of %r does not appear in the emitted program (site %s)" % (user, text, site),
